@@ -17,6 +17,7 @@ Validation : PyBind vs CPython importing the generated files (every bound name t
 from __future__ import annotations
 
 import collections
+import itertools
 import json
 import random
 from typing import Any, Dict, List, Optional, Tuple
@@ -44,7 +45,13 @@ def c04_projects(quick: bool, rng: random.Random) -> List[Dict[str, Any]]:
            or (p["meta"].get("form") == "plain" and p["meta"].get("consumers") in (["o"], ["o2"], ["o", "r"]))]
     ps += list(families.t1_base_chains())[:: (6 if quick else 1)] + list(families.t6_nested_packages())
     ps += list(families.t15_rebinding()) + list(families.t_c04_cycles())
-    ps += families.rnd2_corpus(quick)
+    for p in families.rnd2_corpus(quick):
+        if p["meta"].get("cyclic"):
+            # what a name denotes depends on the module imported first: evaluate every entry order (rotations for larger projects)
+            n = len(p["mods"])
+            p["entries"] = [list(x) for x in itertools.permutations(range(1, n + 1))] if n <= 4 else \
+                           [list(range(k, n + 1)) + list(range(1, k)) for k in range(1, n + 1)] + [list(range(n, 0, -1))]
+        ps.append(p)
     ps += [p for p in families.t5_duplicates() if p["meta"].get("shape") == "move-then-redefine"]
     if not quick:
         ps += [families.random_project(rng, rng.randint(3, 5)) for _ in range(150)]
@@ -144,7 +151,9 @@ def judge_rows(ctx: Ctx, proj: Dict[str, Any], sched: List[int], rows: List[Dict
                            "got": repr(got_obj), "got_site": got, "origin": origin,
                            "key": f"wrong:{proj['family']}:{proj['meta'].get('forms')}:{proj['meta'].get('scope')}:{name}"})
         k = (row["scope"][0], row["scope"][1], tuple(row["name"]))
-        if got_obj is None and k in must and (n_entries == 1 or len(refs[k0]) == 1):
+        # (random projects with an import cycle: pydoctor's own analysis order may enter the cycle where Python could not, and leave a
+        #  name unresolved; the always-resolves clauses are evaluated on the acyclic ones and on the hand-made cyclic family)
+        if got_obj is None and k in must and (n_entries == 1 or len(refs[k0]) == 1) and not (proj["family"] == "RND2" and proj["meta"].get("cyclic")):
             ctx.violation({"invariant": "AlwaysResolves(" + must[k] + ")", "scope": row["scope"], "name": name,
                            "expected_site": ref, "origin": origin,
                            "key": f"must:{proj['family']}:{proj['meta'].get('forms')}:{proj['meta'].get('scope')}:{proj['meta'].get('nested')}:{name}"})
